@@ -214,6 +214,18 @@ func ownerScoped(c *run.Ctx, w *chain.World, st *mon.Stats) {
 	if w.Dead {
 		return
 	}
+	// victims also hold degenerate-but-valid orders: an amount of zero (nothing is escrowed for it),
+	// one base unit, and an order far from the market
+	vic := w.Users[2]
+	for _, amt := range []int64{0, 1} {
+		b := w.Step(5, w.Tx(vic, &tstypes.MsgCreateSpotOrder{OrderType: tstypes.SpotOrderType_LIMITBUY, OrderPrice: tstypes.OrderPrice{BaseDenom: "uusdc", QuoteDenom: "uatom", Rate: math.LegacyOneDec().Quo(atom).QuoInt64(40)}, OrderAmount: chain.Coin("uusdc", amt), OwnerAddress: vic.S(), OrderTargetDenom: "uatom"}))
+		if !w.Dead && b.Txs[1].OK() {
+			c.Ev(fmt.Sprintf("victim_order_with_amount_%d_accepted", amt))
+		}
+	}
+	if w.Dead {
+		return
+	}
 	ctx := w.ReadCtx()
 	msgs := []sdk.Msg{}
 	ownSpot, ownPerp := []uint64{}, []uint64{}
@@ -227,14 +239,22 @@ func ownerScoped(c *run.Ctx, w *chain.World, st *mon.Stats) {
 			ownPerp = append(ownPerp, o.OrderId)
 		}
 	}
-	for _, o := range a.TradeshieldKeeper.GetAllPendingSpotOrder(ctx) {
+	nSpot := 0
+	// the newest foreign orders first (the degenerate ones above among them)
+	spots := a.TradeshieldKeeper.GetAllPendingSpotOrder(ctx)
+	for i, j := 0, len(spots)-1; i < j; i, j = i+1, j-1 {
+		spots[i], spots[j] = spots[j], spots[i]
+	}
+	for _, o := range spots {
 		if o.OwnerAddress != att.S() {
 			msgs = append(msgs, &tstypes.MsgCancelSpotOrder{OwnerAddress: att.S(), OrderId: o.OrderId}, &tstypes.MsgUpdateSpotOrder{OwnerAddress: att.S(), OrderId: o.OrderId, OrderPrice: o.OrderPrice}, &tstypes.MsgCancelSpotOrders{Creator: att.S(), SpotOrderIds: []uint64{o.OrderId}})
 			if len(ownSpot) > 0 {
 				c.Ev("batch_mixing_own_and_foreign_ids")
 				msgs = append(msgs, &tstypes.MsgCancelSpotOrders{Creator: att.S(), SpotOrderIds: []uint64{ownSpot[0], o.OrderId}}, &tstypes.MsgCancelSpotOrders{Creator: att.S(), SpotOrderIds: []uint64{o.OrderId, ownSpot[0]}})
 			}
-			break
+			if nSpot++; nSpot >= 6 {
+				break
+			}
 		}
 	}
 	for _, o := range a.TradeshieldKeeper.GetAllPendingPerpetualOrder(ctx) {
